@@ -1,7 +1,7 @@
 (* C11 — property theorems.  Nothing but statements, `exact`, Print Assumptions.
    `reach g` : g is reachable from the initial state by ANY sequence of labels, i.e. under every
    interleaving of the accept loop, the handlers, Shutdown, Close, clients, origin and context. *)
-From G11 Require Import Shutdown ShutdownCheck ShutdownProofs ShutdownAccepts ShutdownObligations.
+From G11 Require Import Shutdown ShutdownCheck ShutdownProofs ShutdownAccepts ShutdownProgress ShutdownObligations.
 Open Scope Z_scope.
 
 (* Shutdown decides "drained" (and then returns nil) only in a state where the counter is zero and
@@ -80,6 +80,27 @@ Theorem T11_counter_balanced : forall g,
   ((forall i c, getc g i = Some c -> pc c = CDone) -> cnt g = 0 /\ regs g = []).
 Proof. exact counter_balanced. Qed.
 Print Assumptions T11_counter_balanced.
+
+(* Progress: the LTS has no deadlock.  From EVERY reachable state there is a continuation, in which the
+   environment withholds nothing (the context may expire, clients go away, origins answer), that
+   releases connsMu and takes every handler to its end; then the counter is zero and the registry
+   empty.  In particular Shutdown holding connsMu for its whole duration never blocks the handlers
+   for ever: their registration and deletion wait for it, their decrement does not. *)
+Theorem T11_no_deadlock : forall g,
+  reach g ->
+  exists ls g', runf g ls = Some g' /\
+    (forall i c, getc g' i = Some c -> pc c = CDone) /\ cnt g' = 0 /\ regs g' = [] /\ mu g' = None.
+Proof. exact no_deadlock. Qed.
+Print Assumptions T11_no_deadlock.
+
+(* ... and the drain itself can always succeed: from every reachable state in which Shutdown is
+   polling (holding connsMu), every registered handler can run up to its decrement without the lock,
+   the counter reaches zero and Shutdown returns nil - without any context expiry. *)
+Theorem T11_drain_can_succeed : forall g,
+  reach g -> sd g = SdHolding ->
+  exists ls g', runf g ls = Some g' /\ sd g' = SdDone true /\ cnt g' = 0.
+Proof. exact drain_can_succeed. Qed.
+Print Assumptions T11_drain_can_succeed.
 
 (* The trace-inclusion checker run on every recorded execution of the real proxy is sound: what it
    accepts is the observable projection of a run of the LTS from its initial state — so every theorem
